@@ -17,7 +17,7 @@ def run(cmd, cwd=None, env=None, timeout=3600):
 
 
 def main():
-    src, check = sys.argv[1], sys.argv[2]
+    src, check = os.path.abspath(sys.argv[1]), sys.argv[2]
     args = [a for a in sys.argv[3:] if not a.startswith('--')]
     runs = args[0] if args else None
     do_tests = '--no-tests' not in sys.argv
